@@ -1121,7 +1121,6 @@ func TestVerifC09CallSites(t *testing.T) {
 	})
 }
 
-
 // TestVerifC12RunnerHeaders is C12's view of the runner's side of the contract: the
 // expectation headers the reference server checks against are attached by
 // runTestCasesForServer, to the ordinary request headers and to a raw request's headers alike.
